@@ -26,7 +26,7 @@ ASSUMPTIONS = [
 ]
 NSHARDS = {"quick": 16, "thorough": 16}
 N_CASES = {"quick": 1200, "thorough": 90000}   # per shard
-REQUIRE = {"outcome:oom": 200, "outcome:ok": 200, "zero_tick_operators": 50, "multi_segment_operators": 100,
+REQUIRE = {"whatif_reruns_of_an_edited_segment": 100, "outcome:oom": 200, "outcome:ok": 200, "zero_tick_operators": 50, "multi_segment_operators": 100,
            "compared_ticks": 20000, "ambiguous_cases_resolved": 5, "retried_containers": 300, "retries_succeeded": 100, "neighbour_cases:cancel": 300, "neighbour_cases:random": 100, "alloc_class:long-lived": 8, "alloc_class:churn": 3}
 for _l in LAWS:
     REQUIRE["law:" + _l] = 50
@@ -251,10 +251,59 @@ def cases(tier, seed, shard, nshards):
             yield retry_case(rng)
         if i % 5 == 0:
             yield neighbour_case(rng)
+        if i % 10 == 0:
+            yield whatif_case(rng)
+
+
+def whatif_case(rng):
+    """A what-if sweep: the *same* Segment object is run, its CPU seconds (or scaling law) are changed, and it is run
+    again with the same CPU count.  The second run has to follow the new values."""
+    tps = rng.choice([1, 10, 100])
+    cpus = rng.choice([1, 2, 4, 8])
+    t1, t2 = rng.sample([2, 3, 5, 8, 13, 21], 2)
+    law1, law2 = rng.choice(["const", "sqrt", "squared"]), rng.choice(["const", "const", "linear7"])
+    return {"kind": "whatif", "tps": tps, "cpus": cpus, "t1": t1, "t2": t2, "law1": law1, "law2": law2,
+            "change_law": rng.random() < 0.3}
+
+
+def run_whatif(case, mon):
+    from .. import sut
+    from ..model import Seg, container_ticks
+    from eudoxia.workload.pipeline import Segment
+    tps, cpus = case["tps"], case["cpus"]
+    seg = Segment(baseline_cpu_seconds=1.0, cpu_scaling=case["law1"], memory_gb=0.01, storage_read_gb=0.0)
+    observed, expected = [], []
+    for rnd, (ticks_wanted, law) in enumerate(((case["t1"], case["law1"]), (case["t2"], case["law2"] if case["change_law"] else case["law1"]))):
+        base = gen.inv_law(law, cpus, (ticks_wanted + 0.5) / tps)
+        seg.baseline_cpu_seconds = base                                  # edited in place between the runs
+        if rnd == 1 and case["change_law"]:
+            seg.scaling_func = Segment.SCALING_FUNCS[law]
+        ticks, n_amb = container_ticks([[Seg(base, law, 0.01, 0.0)]], cpus, tps)
+        if n_amb:
+            return
+        expected.append(len(ticks))
+        ex = sut.Executor(num_pools=1, cpus_per_pool=16, ram_gb_per_pool=4, ticks_per_second=tps, multi_operator_containers=True,
+                          allow_memory_overcommit=False)
+        p = sut.Pipeline(f"whatif{rnd}", sut.Priority.BATCH_PIPELINE)
+        op = p.new_operator(None)
+        op.add_segment(seg)
+        a = sut.Assignment(ops=[op], cpu=cpus, ram=1.0, priority=p.priority, pool_id=0, pipeline_id=p.pipeline_id)
+        n, res = 0, ex.run_one_tick([], [a])
+        while not res and n < 5000:
+            n += 1
+            res = ex.run_one_tick([], [])
+        observed.append(n + 1 if res and res[0].error is None else None)
+    mon.count("whatif_reruns_of_an_edited_segment")
+    if observed != expected:
+        mon.fail("edited-segment-ignored", f"a Segment run for {expected[0]} ticks, edited in place and run again with the same {cpus} CPUs "
+                                           f"must take {expected[1]} ticks; observed {observed}", tps=tps, cpus=cpus)
+    mon.hit({"kind": "whatif", "expected": expected})
 
 
 def run_case(case, mon):
     from ..execworld import run_with_choices, ANY, World
+    if case.get("kind") == "whatif":
+        return run_whatif(case, mon)
     if case.get("kind") == "retry" and case.get("_adaptive_pending"):
         case.pop("_adaptive_pending")
         w = World(case)
